@@ -58,6 +58,9 @@ def do_poly(p):
             pol2 = SphPolygon(np.array(p["v"], dtype=np.float64), radius=r)
             pol2.invert()
             out["invert_area"] = float(pol2.area())
+            pol2.invert()                       # history on one object: invert() twice is the polygon again
+            out["invert2_area"] = float(pol2.area())
+            out["invert2_v"] = [[float(a), float(b)] for a, b in pol2.vertices]
     except Exception as e:  # noqa
         out["error"] = "%s: %s" % (type(e).__name__, e)
     return out
